@@ -921,12 +921,12 @@ class Epoch(object):
         """
 
         list_years = sorted(LEAP_TABLE.keys())
-        # First test the extremes of the table
-        if (year + month / 12.0) <= list_years[0]:
-            return 0
-        if (year + month / 12.0) >= list_years[-1]:
-            return LEAP_TABLE[list_years[-1]]
         lyear = (year + 0.25) if month <= 6 else (year + 0.75)
+        # First test the extremes of the table
+        if lyear <= list_years[0]:
+            return 0
+        if lyear >= list_years[-1]:
+            return LEAP_TABLE[list_years[-1]]
         idx = 0
         while lyear > list_years[idx]:
             idx += 1
